@@ -462,6 +462,18 @@ pub fn truthy(sexp: Rc<SExp>) -> bool {
     atom_value(sexp).unwrap_or_else(|_| bi_one()) != bi_zero()
 }
 
+/// Truthiness of a constant as CLVM's `i` sees it once convert_to_clvm_rs has converted it:
+/// every non-empty atom is true (the legacy integer conversion emits Integer 0 as 0x00,
+/// and 0x00, 0x0000 ... are non-empty atoms in both modes).
+pub fn truthy_when_converted(sexp: Rc<SExp>) -> bool {
+    match sexp.borrow() {
+        SExp::Cons(_, _, _) => true,
+        SExp::Nil(_) => false,
+        SExp::Atom(_, a) | SExp::QuotedString(_, _, a) => !a.is_empty(),
+        SExp::Integer(_, i) => !NewStyleIntConversion::setting() || *i != bi_zero(),
+    }
+}
+
 /// The second of the core run operations, combine determines how a recently
 /// completed step affects its parent to produce the next evaluation step.
 ///
